@@ -1,5 +1,6 @@
 """Program model over the driver's facts: bodies, CFG algorithms, call graph."""
 import collections
+import os
 import functools
 
 
@@ -462,7 +463,36 @@ def postdominators(body, exits):
 
 
 class Program:
-    def __init__(self, units):
+    def __init__(self, units, _normalised=False):
+        self._init(units)
+        if _normalised or os.environ.get("SVGDX_SA_NO_RENAME_NORMALISATION"):
+            return
+        # Functions that are recognisably *renamings* of reviewed functions (same module / impl, same callers, the old
+        # name gone) are given their reviewed names back, so that rule anchors, tables and known-finding keys - all of
+        # which name functions - keep meaning the same code.  The mapping is reported in the evidence.
+        try:
+            from props import strops
+
+            ren = strops.renames(self)
+        except Exception:  # noqa: BLE001 - normalisation is best effort; without it anchors fail closed
+            ren = {}
+        self.renamed = dict(ren)
+        if not ren:
+            return
+        import json as _json
+        import re as _re
+
+        text = _json.dumps(units)
+        for new, old in sorted(ren.items(), key=lambda kv: -len(kv[0])):
+            nl, ol = new.rsplit("::", 1)[-1], old.rsplit("::", 1)[-1]
+            if nl == ol:
+                continue
+            text = _re.sub(r"::" + _re.escape(nl) + r"(?![A-Za-z0-9_])", "::" + ol, text)
+            text = text.replace(f'"name": "{nl}"', f'"name": "{ol}"')
+        self._init(_json.loads(text))
+        self.renamed = dict(ren)
+
+    def _init(self, units):
         self.units = units
         self.bodies = {}
         self.by_path = collections.defaultdict(list)
